@@ -35,6 +35,9 @@ CHECKS = {
  "C09": ("fault_enumeration", "runtime monitor: validate observed after every step of fault-free histories; every single-file damage of generated archives judged by restore-based harm oracle vs validate's report",
          "Healthy side: full and quick validation after every archive-changing step of generated histories must be silent. Damage side: for EVERY file of generated archives x {delete, truncate 0, truncate half, garbage} and 8 bit flips per block, harm is decided by restoring every complete version and comparing with its pre-damage tree; every harmful damage must be reported by full validation (and deletions by quick validation).",
          "Trusted: restore-and-compare as the definition of harm; 'version' restricted to complete versions.", "3 C09"),
+ "C10": ("fault_enumeration", "runtime monitor: every single-file damage of generated archives run through a child process; crash/termination, containment and follow-up-backup oracles; valgrind memcheck replay of hostile-byte cases",
+         "For EVERY file of generated archives x {delete, truncate 0, truncate half, garbage} plus seeded bit flips in every file, a child process runs versions / ls / restore of every band / validate full+quick / backup / restore; the parent decides normal termination (panic, abort, signal, operation-budget overrun), exact restoration of every entry that does not depend on the damaged file, error reporting for entries whose hunk or block became missing or undecodable, and an exact follow-up backup after deletions and truncations. A sample of hostile-byte cases is replayed under valgrind memcheck.",
+         "Trusted: E2 reader for the dependency analysis; 'hang' is decided as an operation budget (1000x fault-free), wall-clock watchdog is inconclusive; AddressSanitizer build was not possible (old rustix in the dependency tree does not build on nightly), memcheck is used instead.", "3 C10"),
  "C11": ("exploration", "runtime monitor: executable order/validity model compared with Apath on exhaustive small alphabets + emitters observed on generated trees",
          "All pairs/triples of valid paths over two alphabets up to depth 4/3 and every string over a 13-component alphabet (exhaustive within the bound) are compared against an independent statement of the documented order and validity rule; the source walk, listings and independently decoded hunks of generated trees must be strictly increasing under it.",
          "Trusted: oracle::apath_key as restatement of doc/format.md; snap + serde_json to decode hunks.", "3 C11"),
